@@ -20,7 +20,7 @@ def run(env, rep):
         "path-sensitively; on every row with a previous header, not a continuation chunk and the previous header flagged droppable "
         "the format is the constant Full, and the flag consulted is the one stored in previous_headers[csid of this message]; R2: the "
         "can_be_dropped stored in the remembered header and in the returned Packet is the caller's argument; R3: all chunks of one "
-        "message go into the one buffer that becomes Packet.bytes.  Not decided: decodability after each of the 2^k drop sets.")
+        "message go into the one buffer that becomes Packet.bytes; R4 (= the writer clauses of C01 R3 and R5): continuation chunks repeat the first chunk's timestamp field and a type-0 header carries the absolute time - what a surviving packet carries must decode on its own.  Not decided: decodability after each of the 2^k drop sets.")
     rep.exhaustive = True
     m = chunk.ChunkModel(env, rep, "C08.anchors")
     if not m.ok:
@@ -133,3 +133,8 @@ def run(env, rep):
                 inner_ok = True
     rep.check("C08.R3", "one-buffer", len(sinks) == 1 and inner_ok, "every chunk of a message is written to the one cursor whose buffer becomes Packet.bytes",
               "the chunks of one message are not all written to the buffer that is returned as Packet.bytes (sinks: %d)" % len(sinks), se.span)
+    # ------------------------------------------------------------------ R4: what the chunks around a dropped packet carry
+    from ..framework import PrefixReport, wants
+    if wants(rep, "C08.R4"):
+        from . import C01
+        C01.run(env, PrefixReport(rep, "C01.", "C08.R4.", only=("C01.R3", "C01.R5"), keys=lambda k: not str(k).startswith("reader:")))
